@@ -118,3 +118,52 @@ def immutable(types, desc, cfg):
     if b1[0] == "bytes" and b2[0] == "bytes":
         check(b1[1] == b2[1], "serializing a deserialized instance twice yields identical bytes")
     no_assign(back, "byte_size", 0, desc["name"] + "(deserialized).byte_size")
+
+
+def array_kinds(types, desc, cfg):
+    """array arguments of other iterable kinds (tuple, range, bytes, bytearray) are copied into tuples as well"""
+    cls = load_class(desc["module"], desc["name"])
+    ENTRY["mode"] = desc["entry"]
+    tree = gen_unit(types, desc["instrs"], desc["name"], cfg, desc["entry"], "any")
+    kw = {}
+    collect_kwargs(types, cls, desc["instrs"], tree, kw)
+    names = int_arrays(desc["instrs"])
+    assume(len(names) > 0)
+    for kind in ("tuple", "range", "bytes", "bytearray"):
+        kw2 = {}
+        for k in kw.keys():
+            kw2[k] = kw[k]
+        n_used = 0
+        for name in names:
+            v = kw[name]
+            if isinstance(v, list):
+                n = len(v)
+                if kind == "tuple":
+                    kw2[name] = tuple(range(n))
+                elif kind == "range":
+                    kw2[name] = range(n)
+                elif kind == "bytes":
+                    kw2[name] = bytes(range(n))
+                else:
+                    kw2[name] = bytearray(range(n))
+                n_used += 1
+        if n_used > 0:
+            obj = cls(**kw2)
+            for name in names:
+                cur = getattr(obj, name)
+                if cur is not None:
+                    check(isinstance(cur, tuple), desc["name"] + "." + name + ": array built from a " + kind + " is a tuple")
+            ref = {}
+            for k in kw2.keys():
+                ref[k] = list(kw2[k]) if k in names and kw2[k] is not None else kw2[k]
+            check(ser_outcome(cls, obj)[1] == ser_outcome(cls, cls(**ref))[1], desc["name"] + ": same bytes as when built from a list (" + kind + ")")
+
+
+def int_arrays(instrs):
+    out = []
+    for ins in instrs:
+        if ins[0] == "array" and ins[2][0] == "int" and not (ins[3] is not None and ins[3][0] == "const" and ins[3][1] > 3):
+            out.append(ins[1])
+        elif ins[0] == "chunked":
+            out = out + int_arrays(ins[1])
+    return out
